@@ -330,13 +330,17 @@ fn check_record(hd: &HeaderDesc, header: &vcf::Header, rd: &RecDesc, out: &mut C
     };
     out.count("records_accepted", 1);
     let ctxs = format!("emitted line: {}\nfileformat {}.{}", lossy(&line), ff.0, ff.1);
-    let canon = |mut r: RecDesc| -> RecDesc {
+    // The description's first-allele phasing is brought to the spec rule where the text cannot carry it
+    // (before VCF 4.4: phased iff every other separator is `|`); whatever is READ is compared exactly
+    // against that — and lazy vs eager views of the same bytes exactly against each other.
+    let exp = {
+        let mut r = rd.clone();
         if ff < (4, 4) {
             canon_first_phasing(&mut r);
         }
         r
     };
-    let exp = canon(rd.clone());
+    let canon = |r: RecDesc| -> RecDesc { r };
     let mut bad: BTreeSet<String> = BTreeSet::new();
     let colkey = |d: &genvcf::FieldDiff| format!("{}|{}", d.column, d.key);
 
@@ -451,16 +455,8 @@ fn check_record(hd: &HeaderDesc, header: &vcf::Header, rd: &RecDesc, out: &mut C
                                     continue;
                                 }
                                 for (si, got) in col.iter().enumerate() {
-                                    let mut e = v.samples[si].get(fi).cloned().unwrap_or(None);
-                                    let mut g = got.clone();
-                                    if ff < (4, 4) {
-                                        for x in [&mut e, &mut g] {
-                                            if let Some(Val::Gt(gt)) = x {
-                                                let imp = genvcf::implied_first_phasing(gt);
-                                                gt[0].phased = imp;
-                                            }
-                                        }
-                                    }
+                                    let e = v.samples[si].get(fi).cloned().unwrap_or(None);
+                                    let g = got.clone();
                                     if !genvcf::opt_val_eq(&e, &g, &Tol::TEXT) {
                                         out.violation(format!("lazy-series-ne-rows:{}", genvcf::classify(&e, &g)), format!("series {k} sample {si}: {} vs {}\n{ctxs}", genvcf::show_val(&e), genvcf::show_val(&g)));
                                     }
@@ -628,6 +624,13 @@ fn check_record(hd: &HeaderDesc, header: &vcf::Header, rd: &RecDesc, out: &mut C
         }
     }
     out.count(&format!("records_fileformat[{}.{}]", ff.0, ff.1), 1);
+    for row in &rd.samples {
+        for v in row.iter().flatten() {
+            if let Val::Gt(g) = v {
+                gt_coverage(g, ff, out);
+            }
+        }
+    }
     out.count(&format!("records_samples[{}]", match rd.samples.len() { 0 => "0", 1 => "1", 2..=3 => "2-3", _ => "4+" }), 1);
     RecResult { line: eager_desc.map(|fresh| Accepted { line, exp, fresh }) }
 }
@@ -647,12 +650,8 @@ fn file_pass(header_text: &str, recs: &[Accepted], ff: (u32, u32), out: &mut Cas
         let _ = w.write_all(&file);
         w.finish().unwrap_or_default()
     };
-    let canon = |mut r: RecDesc| -> RecDesc {
-        if ff < (4, 4) {
-            canon_first_phasing(&mut r);
-        }
-        r
-    };
+    let _ = ff;
+    let canon = |r: RecDesc| -> RecDesc { r };
     let colkey = |d: &genvcf::FieldDiff| format!("{}|{}", d.column, d.key);
     // what differs between description and fresh decode was reported per record already
     let known: Vec<BTreeSet<String>> = recs.iter().map(|r| diff_records(&r.exp, &r.fresh, &Tol::TEXT).iter().map(colkey).collect()).collect();
@@ -735,6 +734,23 @@ fn file_pass(header_text: &str, recs: &[Accepted], ff: (u32, u32), out: &mut Cas
     }
 }
 
+/// Coverage of genotype separator orders per fileformat (ploidy >= 3).
+fn gt_coverage(g: &[GtAllele], ff: (u32, u32), out: &mut CaseOut) {
+    if g.len() < 3 {
+        return;
+    }
+    let seps: Vec<bool> = g.iter().skip(1).map(|a| a.phased).collect();
+    if seps.iter().any(|p| *p) && seps.iter().any(|p| !*p) {
+        out.count(&format!("gt_mixed_separators[{}.{}]", ff.0, ff.1), 1);
+        if *seps.last().unwrap() && seps[..seps.len() - 1].iter().any(|p| !*p) {
+            out.count(&format!("gt_last_phased_earlier_unphased[{}.{}]", ff.0, ff.1), 1);
+        }
+        if !*seps.last().unwrap() {
+            out.count(&format!("gt_last_unphased_earlier_phased[{}.{}]", ff.0, ff.1), 1);
+        }
+    }
+}
+
 fn fdef(id: &str, num: Num, ty: Ty) -> FieldDef {
     FieldDef { id: id.into(), num, ty, desc: format!("{id} field"), idx: None, extra: vec![] }
 }
@@ -753,6 +769,7 @@ fn corpus() -> Vec<(HeaderDesc, Vec<RecDesc>)> {
     };
     let gt = |a: u32, b: u32, p: bool| Some(Val::Gt(vec![GtAllele { allele: Some(a), phased: p }, GtAllele { allele: Some(b), phased: p }]));
     let base = RecDesc { chrom: "20".into(), pos: 14370, ids: vec!["rs6054257".into()], reference: "G".into(), alts: vec!["A".into()], qual: Some(29f32.to_bits()), filters: vec!["PASS".into()], info: vec![("DP".into(), Some(Val::Int(14))), ("AF".into(), Some(Val::Floats(vec![Some(0.5f32.to_bits())]))), ("DB".into(), Some(Val::Flag))], format: vec!["GT".into(), "GQ".into()], samples: vec![vec![gt(0, 0, true), Some(Val::Int(48))], vec![gt(1, 0, true), Some(Val::Int(48))]] };
+    let base_for_gt = base.clone();
     let mut recs = vec![base.clone()];
     // reserved characters in strings: round-trip through percent-encoding
     let mut r = base.clone();
@@ -800,6 +817,13 @@ fn corpus() -> Vec<(HeaderDesc, Vec<RecDesc>)> {
         recs.push(gen_rich_record(&mut rng, &h, &ro));
     }
     let mut out = vec![(h.clone(), recs)];
+    // ploidy 3 / 4 genotypes with every order of `/` and `|` separators under every fileformat
+    for minor in 2..=5u32 {
+        let mut hv = h.clone();
+        hv.fileformat = (4, minor);
+        let m = genvcf::gt_separator_matrix(&hv, &base_for_gt);
+        out.push((hv, m));
+    }
     // the same without samples: no FORMAT column at all
     {
         let mut h0 = h.clone();
@@ -954,6 +978,12 @@ fn main() {
         rep.floor("info Number x Type classes covered", combos as u64, 25);
         let fcombos: usize = genvcf::format_combos(false).iter().map(|(n, t)| format!("format[{}x{}]", n.class(), t.text())).collect::<BTreeSet<_>>().iter().filter(|k| get(k) > 0).count();
         rep.floor("format Number x Type classes covered", fcombos as u64, 24);
+        for minor in 2..=5 {
+            for k in ["gt_mixed_separators", "gt_last_phased_earlier_unphased", "gt_last_unphased_earlier_phased"] {
+                let k = format!("{k}[4.{minor}]");
+                rep.floor(&k, get(&k), 40);
+            }
+        }
         rep.floor("adjacent_rich_then_minimal", get("adjacent_rich_then_minimal"), recs / 40);
         rep.floor("adjacent_minimal_then_rich", get("adjacent_minimal_then_rich"), recs / 40);
         for api in ["read_record_buf", "record_bufs", "read_record", "records"] {
